@@ -11,8 +11,8 @@ EXTENDS MPSyntaxDefs
 CONSTANT Size       \* "quick" | "full"
 StrIds == IF Size = "quick" THEN {"plain", "dquote", "backslash", "nonascii", "delims", "empty", "numlike", "newline", "trailbs", "boollike"}
           ELSE {"plain", "spaces", "dquote", "squote", "backslash", "nonascii", "delims", "empty", "numlike", "boollike", "padded", "newline", "hash", "trailbs"}
-NumIds == IF Size = "quick" THEN {"int", "negint", "dec", "smallexp", "bigexp", "bigint"}
-          ELSE {"int", "zero", "negint", "bigint", "dec", "negdec", "smallexp", "bigexp", "exp22", "tenth", "whole", "tiny"}
+NumIds == IF Size = "quick" THEN {"int", "negint", "dec", "smallexp", "bigexp", "bigint", "digits17"}
+          ELSE {"int", "zero", "negint", "bigint", "dec", "negdec", "smallexp", "bigexp", "exp22", "tenth", "whole", "tiny", "digits17", "third", "ulp16"}
 ListIds == {"empty", "ints", "mixed", "exps"}
 Str(id) == <<"str", id, "dq">>
 Num(id) == IF id \in {"int", "zero", "negint", "bigint"} THEN <<"int", id>> ELSE <<"float", id>>
